@@ -649,20 +649,19 @@ theorem mem_entries_iff (op : Op) (args : GArgs) (loc : GLoc) (hl : loc.toS ≠ 
     refine ⟨p.info, info_mem_ordered op p hp, by simp [GParam.info, hpl], ?_⟩
     exact dictEntry_of hreq
 
-/-- The entries of the `headers` dict (F39 repaired: the value goes through `_string_value_expr`), in terms of the
-    DECLARED parameters. -/
-theorem mem_headerEntries_iff (op : Op) (args : GArgs) (e : Str × GValue) :
-    e ∈ headerEntries (orderedParams op) args ↔
-      ∃ p ∈ op.params, p.loc = .header ∧ e = (p.name, strValue p.kind (argVal args p.ident)) ∧
+/-- The entries of the `headers` / `cookies` dict (F39, F11 repaired: the value goes through `_string_value_expr`), in
+    terms of the DECLARED parameters. -/
+theorem mem_strEntries_iff (op : Op) (args : GArgs) (loc : GLoc) (hl : loc.toS ≠ .path) (e : Str × GValue) :
+    e ∈ strEntries loc.toS (orderedParams op) args ↔
+      ∃ p ∈ op.params, p.loc = loc ∧ e = (p.name, strValue p.kind (argVal args p.ident)) ∧
         (p.required = true ∨ argVal args p.ident ≠ .none) := by
-  have hl : GLoc.header.toS ≠ SLoc.path := by decide
-  unfold headerEntries
+  unfold strEntries
   rw [List.mem_filterMap]
   constructor
   · rintro ⟨q, hq, he⟩
     rw [List.mem_filter] at hq
-    obtain ⟨p, hp, hpl, rfl⟩ := (ordered_loc_iff op q .header hl).mp ⟨hq.1, by simpa [GLoc.toS] using hq.2⟩
-    unfold headerEntry at he
+    obtain ⟨p, hp, hpl, rfl⟩ := (ordered_loc_iff op q loc hl).mp ⟨hq.1, by simpa using hq.2⟩
+    unfold strEntry at he
     cases hd : dictEntry args p.info with
     | none => rw [hd] at he; cases he
     | some e0 =>
@@ -673,8 +672,8 @@ theorem mem_headerEntries_iff (op : Op) (args : GArgs) (e : Str × GValue) :
       rw [← he, this.1]
       rfl
   · rintro ⟨p, hp, hpl, rfl, hreq⟩
-    refine ⟨p.info, List.mem_filter.mpr ⟨info_mem_ordered op p hp, by simp [GParam.info, hpl, GLoc.toS]⟩, ?_⟩
-    unfold headerEntry
+    refine ⟨p.info, List.mem_filter.mpr ⟨info_mem_ordered op p hp, by simp [GParam.info, hpl]⟩, ?_⟩
+    unfold strEntry
     rw [dictEntry_of hreq]
     rfl
 
